@@ -26,6 +26,9 @@ STEPS = {
     "slice_past": lambda p, t, t0: t >> p.slice_head(2, offset=2),
     "slice1": lambda p, t, t0: t >> p.slice_head(1),
     "slice_big": lambda p, t, t0: t >> p.slice_head(3, offset=1),
+    "arr_names": lambda p, t, t0: t >> p.arrange(p.C.a.nulls_last(), p.C.b.nulls_last(), p.C.c.nulls_last()),
+    "fil_name_a": lambda p, t, t0: t >> p.filter(p.C.a > 0),
+    "mut_name_d": lambda p, t, t0: t >> p.mutate(d=p.C.a + p.C.b),
     "drop_a": lambda p, t, t0: t >> p.drop(t0.a),
     "ren_swap": lambda p, t, t0: t >> p.rename({"a": "b", "b": "a"}),
     "ren_new": lambda p, t, t0: t >> p.rename({"a": "z"}),
@@ -93,6 +96,13 @@ TARGETED = [
     ("overwrite_select_rename", ["mut_over", "sel_names", "ren_swap"]),
     ("slices_past_end", ["arr", "slice1", "slice_past"]),
     ("slices_nested", ["arr", "slice_big", "slice", "slice_off"]),
+    ("slice_then_filter", ["arr", "slice", "fil_gt"]),
+    ("slice_alias_then_filter", ["arr", "slice_big", "alias", "fil_name_a"]),
+    ("slice_alias_mutate_filter", ["arr", "slice_big", "alias", "mut_name_d", "fil_name_a"]),
+    ("alias_below_slice_then_filter", ["alias", "mut_name_d", "arr_names", "slice_big", "fil_name_a"]),
+    ("alias_below_slice_off_then_filter", ["alias", "arr_names", "slice_off", "fil_name_a"]),
+    ("slice_mutate_filter", ["arr", "slice", "mut_new", "fil_two"]),
+    ("slice_select_filter", ["arr", "slice_big", "sel_rev", "fil_gt"]),
     ("swap_then_filter_origin", ["mut_over_ref", "fil_gt"]),
     ("filter_then_overwrite", ["fil_two", "mut_over", "fil_name"]),
     ("two_slices", ["arr", "slice", "slice_off"]),
@@ -130,7 +140,7 @@ def templates(cfg):
 
     out.append(Template("c02.t.reuse_arith_expr", T_I3, reuse_arith, props=("C02",)))
     L = 2 if cfg.tier == "quick" else 3
-    keys = [k for k in STEPS if k not in ("slice", "slice_off", "sel_names", "slice_past", "slice_big", "slice1")]
+    keys = [k for k in STEPS if k not in ("slice", "slice_off", "sel_names", "slice_past", "slice_big", "slice1", "arr_names", "fil_name_a", "mut_name_d")]
     seqs = []
     for n in range(1, L + 1):
         for seq in itertools.product(keys, repeat=n):
